@@ -435,6 +435,11 @@ class IASolverBaseClass:  # pylint: disable=R0902
         value : float | np.ndarray
             The new power of all users.
         """
+        # Quantities derived from the power are no longer valid
+        self._full_F = None
+        self._full_W_H = None
+        self._full_W = None
+
         if value is None:
             # Note that if self._P is None then the getter property will
             # return a numpy array of ones with the appropriated size.
